@@ -1340,6 +1340,7 @@ package server
 //@ func (*TextServerProtocol).ProcessLockResultCommand
 //@   requires self != nil && lockCommand != nil
 //@   ensures C03.text.cleared: forall(k, 0, 16, self.lockRequestId[k] == 0)
+//@   ensures C18.text.closed-drops: implies(old(self.closed), !isnil(result0))
 //@   modifies all
 //@ func (*TextServerProtocol).ProcessLockResultCommandLocked
 //@   requires self != nil && command != nil
@@ -1381,4 +1382,15 @@ package server
 //@   requires manager != nil && manager.slock != nil
 //@   loop#1 invariant 0 <= i
 //@   ensures C09.pool.outlasts-queues: result != nil && chancap(result.replayQueue) + 2 <= len(result.rbufs) && chancap(result.aofQueue) + 2 <= len(result.rbufs) && chancap(result.pushQueue) + 2 <= len(result.rbufs)
+//@   modifies all
+
+// C18: what a text connection queues as a will is the command to execute when the connection ends (Close hands the
+// queue to ProcessCommad, which would take a command still typed as a will for a new registration and never run it);
+// and a closed text connection drops replies instead of parking them in its bounded reply channel, where the fifth
+// will's reply would block Close for ever
+//@ func (*TextServerProtocol).commandHandlerLock
+//@   at call LockCommandQueue.Push assert C18.will.register: arg1.CommandType == protocol.COMMAND_LOCK && calls(LockDB.Lock) == 0
+//@   modifies all
+//@ func (*TextServerProtocol).commandHandlerUnlock
+//@   at call LockCommandQueue.Push assert C18.will.register: arg1.CommandType == protocol.COMMAND_UNLOCK && calls(LockDB.UnLock) == 0
 //@   modifies all
